@@ -258,6 +258,7 @@ fn track_walk<'a>(node: &ast::Stmt<'a>, state: &mut AssignmentTracker<'a>) {
             track_assign(&stmt.target, state);
         }
         ast::Stmt::AutoEscape(stmt) => {
+            tracker_visit_expr(&stmt.enabled, state);
             state.push();
             stmt.body.iter().for_each(|x| track_walk(x, state));
             state.pop();
@@ -266,11 +267,13 @@ fn track_walk<'a>(node: &ast::Stmt<'a>, state: &mut AssignmentTracker<'a>) {
             state.push();
             stmt.body.iter().for_each(|x| track_walk(x, state));
             state.pop();
+            tracker_visit_expr(&stmt.filter, state);
         }
         ast::Stmt::SetBlock(stmt) => {
             state.push();
             stmt.body.iter().for_each(|x| track_walk(x, state));
             state.pop();
+            tracker_visit_expr_opt(&stmt.filter, state);
             track_assign(&stmt.target, state);
         }
         #[cfg(feature = "multi_template")]
